@@ -163,7 +163,7 @@ impl Scenario for OwnScenario {
         let mut tags = vec![];
         if let OwnAct::Advance { to } = a {
             n.time = *to;
-            return Step { next: Some(n), violations, tags: vec!["Advance:ok".into()], validated: 0 };
+            return Step { next: Some(n), violations, tags: vec!["Advance:ok".into()], validated: 0, digest: 0 };
         }
         let by = match a {
             OwnAct::Transfer { by, .. } | OwnAct::Revoke { by } | OwnAct::Accept { by } => by.clone(),
@@ -231,7 +231,7 @@ impl Scenario for OwnScenario {
         }
         tags.push(format!("{label}:{}", if ok { "ok" } else { "fail" }));
         let next = if n != *s { Some(n) } else { None };
-        Step { next, violations, tags, validated: 1 }
+        Step { next, violations, tags, validated: 1, digest: 0 }
     }
     fn on_state(&self, s: &OwnState) -> StateObs {
         let mut o = StateObs::default();
